@@ -130,3 +130,22 @@ func (s *Sim) closeEngine(r *Replica) {
 		}
 	}
 }
+
+// NewProbeStorage opens a stand-alone RocksStorage of the given kind (regression
+// probes at the storage API).
+func NewProbeStorage(kind StorageKind) (raft.IExtRaftStorage, func(), error) {
+	if kind == StoreMem {
+		return raft.NewRealMemoryStorage(), func() {}, nil
+	}
+	dir, err := os.MkdirTemp(ScratchRoot(), "raftsim-probe-")
+	if err != nil {
+		return nil, nil, err
+	}
+	eng, err := openEngine(kind, filepath.Join(dir, "e"))
+	if err != nil {
+		os.RemoveAll(dir)
+		return nil, nil, err
+	}
+	st := raft.NewRocksStorage(1, uint32(GroupID), true, eng)
+	return st, func() { eng.CloseAll(); os.RemoveAll(dir) }, nil
+}
